@@ -44,6 +44,7 @@ type Contract struct {
 	Params   []Param // receiver first
 	Results  []Param
 	Props    []string
+	Reveal   []string // opaque spec functions whose definition is available in this function's proof
 	Safety   []string // properties that own the run-time-safety obligations (default: C03 if listed)
 	Requires []*Clause
 	Ensures  []*Clause
@@ -68,7 +69,7 @@ type Contract struct {
 
 var keywords = map[string]bool{"func": true, "ext": true, "iface": true, "lemma": true, "spec": true, "props": true,
 	"requires": true, "ensures": true, "assigns": true, "alloc": true, "loop": true, "invariant": true,
-	"decreases": true, "let": true, "safety": true, "extinline": true, "trusted": true, "end": true, "opaque": true, "inline": true, "pure": true, "axiom": true}
+	"decreases": true, "let": true, "safety": true, "extinline": true, "reveal": true, "trusted": true, "end": true, "opaque": true, "inline": true, "pure": true, "axiom": true}
 
 type rawLine struct {
 	kw   string
@@ -582,6 +583,8 @@ func buildContract(b []rawLine, sf specFile, af *ast.File, fd *ast.FuncDecl, fse
 			c.Props = append(c.Props, strings.Fields(r.text)...)
 		case "safety":
 			c.Safety = append(c.Safety, strings.Fields(r.text)...)
+		case "reveal":
+			c.Reveal = append(c.Reveal, strings.Fields(r.text)...)
 		case "requires":
 			c.Requires = append(c.Requires, &Clause{Kind: "requires", Text: r.text, Pos: pos(r), Props: strings.Fields(r.arg)})
 		case "ensures":
